@@ -24,3 +24,6 @@ package filter
 //@   loop 1 decreases i + 1
 //@   loop 2 invariant 0 <= i && j < len(runes) && i + j == len(runes) - 1
 //@   loop 2 decreases j - i + 1
+
+// C18: no filter writes package-level state
+//@ globalframe only filter.init
